@@ -169,12 +169,60 @@ Fixpoint rd_stream_eol (inp : list N) (pos : N) (w : list rd_w) : list N * N * l
       else rd_stream_eol t (pos + 1) (RdW_extra_ws :: w)
   end.
 
+(* ------------------------------------------------------------------ recoverStreamLength
+   findFirst("end", stream_offset, 0, findEndstream): the first position at or after [pos] where "end" starts a token
+   (read with max_len 20) that is the word endstream or endobj *)
+Definition rd_s_end : list N := [101; 110; 100].
+Fixpoint rd_prefix (p s : list N) : bool :=
+  match p, s with
+  | [], _ => true
+  | a :: p', b :: s' => (a =? b) && rd_prefix p' s'
+  | _ :: _, [] => false
+  end.
+Fixpoint rd_find_end (s : list N) (pos : N) : option (list N * N) :=
+  match s with
+  | [] => None
+  | _ :: t =>
+      if rd_prefix rd_s_end s then
+        let '(tok, _, _, _) := rd_tok 20 s pos in
+        if rd_is_word tok rd_s_endobj || rd_is_word tok rd_s_endstream then Some (s, pos) else rd_find_end t (pos + 1)
+      else rd_find_end t (pos + 1)
+  end.
+(* the in-use entry with the largest offset below [end_]: its (obj, gen); the table is walked in (obj, gen) order *)
+Fixpoint rd_insert_sorted (e : N * N * c3_xe) (l : rd_tbl) : rd_tbl :=
+  match l with
+  | [] => [e]
+  | h :: t => let '(o, g, _) := e in let '(o', g', _) := h in
+              if (o <? o') || ((o =? o') && (g <? g')) then e :: l else h :: rd_insert_sorted e t
+  end.
+Definition rd_found_og (t : rd_tbl) (end_ : N) : N * option (N * N) :=
+  fold_left (fun (acc : N * option (N * N)) (e : N * N * c3_xe) =>
+               match e with
+               | (o, g, C3Use off _) => if (fst acc <? off) && (off <? end_) then (off, Some (o, g)) else acc
+               | _ => acc
+               end) (fold_right rd_insert_sorted [] t) (0, None).
+(* (length, input and position afterwards) *)
+Definition rd_recover_len (file : list N) (t : rd_tbl) (og : Z * Z) (spos : N) : N * list N * N :=
+  match rd_find_end (rd_at file spos) spos with
+  | None => (0, [], rd_len file)
+  | Some (s, p) =>
+      let len0 := p - spos in
+      let '(tok, rest, newpos, _) := rd_tok 0 s p in
+      let '(rest', pos') := if rd_beq (tok_value tok) rd_s_endobj then (s, p) else (rest, newpos) in
+      let len := if len0 =? 0 then 0 else
+                 match rd_found_og t (spos + len0) with
+                 | (0, _) => len0
+                 | (_, Some (o, g)) => if (Z.of_N o =? fst og)%Z && (Z.of_N g =? snd og)%Z then len0 else 0
+                 | (_, None) => len0
+                 end in
+      (len, rest', pos')
+  end.
+
 (* ------------------------------------------------------------------ readStream
-   [inp] / [pos]: just after the `stream` keyword.  [getlen]: value of the /Length entry with an indirect reference
-   resolved (the resolved object, and the warnings of resolving it).
-   Result: the stream object, the input and position after `endstream`, warnings. *)
-Definition rd_read_stream (file : list N) (resolve : N * N -> rd_obj * list rd_w) (d : list (list N * mobj))
-           (inp : list N) (pos : N) : rd_obj * list N * N * list rd_w :=
+   [inp] / [pos]: just after the `stream` keyword.  [resolve]: resolution of an indirect /Length.
+   Result: the stream object, the input and position afterwards, warnings. *)
+Definition rd_read_stream (file : list N) (t : rd_tbl) (resolve : N * N -> rd_obj * list rd_w) (og : Z * Z)
+           (d : list (list N * mobj)) (inp : list N) (pos : N) : rd_obj * list N * N * list rd_w :=
   let '(inp1, spos, w1) := rd_stream_eol inp pos [] in
   let lo := rd_dict_get rd_s_Length d in
   let '(lv, w2) := match lo with
@@ -182,7 +230,9 @@ Definition rd_read_stream (file : list N) (resolve : N * N -> rd_obj * list rd_w
                                      (match rdo_stream o with Some _ => MoDict [] | None => rdo_val o end, w)
                    | v => (v, [])
                    end in
-  let fail (code : N) := (mkRdObj (MoDict d) (Some (spos, 0)) true, inp1, spos, w1 ++ w2 ++ [RdW_len code]) in
+  let recover (w : list rd_w) :=
+      let '(len, rest, p) := rd_recover_len file t og spos in
+      (mkRdObj (MoDict d) (Some (spos, len)) false, rest, p, w) in
   match lv with
   | MoInt z =>
       let '(len, w3) := if (z <? 0)%Z then (0, [RdW_conv]) else (Z.to_N z, []) in
@@ -190,9 +240,9 @@ Definition rd_read_stream (file : list N) (resolve : N * N -> rd_obj * list rd_w
       let '(tok, rest, newpos, _) := rd_tok 0 (rd_at file epos) epos in
       if rd_is_word tok rd_s_endstream
       then (mkRdObj (MoDict d) (Some (spos, len)) false, rest, newpos, w1 ++ w2 ++ w3)
-      else (mkRdObj (MoDict d) (Some (spos, 0)) true, inp1, spos, w1 ++ w2 ++ w3 ++ [RdW_len 3])
-  | MoNull => fail 1
-  | _ => fail 2
+      else recover (w1 ++ w2 ++ w3 ++ [RdW_len 3])
+  | MoNull => recover (w1 ++ w2 ++ [RdW_len 1])
+  | _ => recover (w1 ++ w2 ++ [RdW_len 2])
   end.
 
 (* ------------------------------------------------------------------ read_object_start *)
@@ -211,7 +261,7 @@ Definition rd_object_start (file : list N) (off : N) : rd_start :=
 
 (* ------------------------------------------------------------------ readObject (after read_object_start) *)
 (* result: None = `return {}` *)
-Definition rd_read_object (e : rd_env) (resolve : N * N -> rd_obj * list rd_w) (sanity : bool)
+Definition rd_read_object (e : rd_env) (resolve : N * N -> rd_obj * list rd_w) (sanity : bool) (og : Z * Z)
            (inp : list N) (pos : N) : option rd_obj * list N * N * list rd_w :=
   let r := parse_object false sanity rd_tk inp pos in
   let wp := map RdW_parse (pr_warn r) in
@@ -223,7 +273,7 @@ Definition rd_read_object (e : rd_env) (resolve : N * N -> rd_obj * list rd_w) (
       match o with
       | MoDict d =>
           if rd_is_word tok rd_s_stream then
-            let '(so, rest2, pos2, ws) := rd_read_stream (rde_file e) resolve d rest newpos in
+            let '(so, rest2, pos2, ws) := rd_read_stream (rde_file e) (rde_tbl e) resolve og d rest newpos in
             let '(tok2, rest3, pos3, _) := rd_tok 0 rest2 pos2 in
             (Some so, rest3, pos3, wp ++ ws ++ (if rd_is_word tok2 rd_s_endobj then [] else [RdW_endobj]))
           else (Some (mkRdObj o None false), rest, newpos, wp ++ (if rd_is_word tok rd_s_endobj then [] else [RdW_endobj]))
@@ -256,7 +306,7 @@ Definition rd_read_at (e : rd_env) (resolve : N * N -> rd_obj * list rd_w) (sani
          | Some (eo, eg) => negb ((id =? Z.of_N eo)%Z && (gen =? Z.of_N eg)%Z)
          | None => false
          end then RdrRecon 3 else
-      let '(oo, rest2, pos2, w) := rd_read_object e resolve sanity rest pos in
+      let '(oo, rest2, pos2, w) := rd_read_object e resolve sanity (id, gen) rest pos in
       match oo with
       | None => RdrNone w
       | Some o => if rd_skip_cspace rest2 then RdrObj id gen o w else RdrThrow 1 w
@@ -439,12 +489,6 @@ Fixpoint rd_line (n : nat) (s : list N) : list N :=
   match n, s with
   | S n', c :: t => if (c =? 10) || (c =? 13) then [] else c :: rd_line n' t
   | _, _ => []
-  end.
-Fixpoint rd_prefix (p s : list N) : bool :=
-  match p, s with
-  | [], _ => true
-  | a :: p', b :: s' => (a =? b) && rd_prefix p' s'
-  | _ :: _, [] => false
   end.
 (* findFirst("%PDF-", 0, 1024, findHeader): (position, version) of the first match below 1024 whose version is valid *)
 Fixpoint rd_find_header (n : nat) (s : list N) (pos : N) : option (N * list N) :=
@@ -827,12 +871,9 @@ Record rd_doc := mkRdDoc { rdd_version : list N; rdd_shift : N; rdd_trailer : mo
 Inductive rd_result := RdDoc (d : rd_doc) | RdOutside (code : N) (w : list rd_w) | RdFatal (code : N) (w : list rd_w).
 (* RdFatal: 1 unable to find page tree *)
 
-Fixpoint rd_insert_sorted (e : N * N * c3_xe) (l : rd_tbl) : rd_tbl :=
-  match l with
-  | [] => [e]
-  | h :: t => let '(o, g, _) := e in let '(o', g', _) := h in
-              if (o <? o') || ((o =? o') && (g <? g')) then e :: l else h :: rd_insert_sorted e t
-  end.
+
+(* an object stream whose filters the model does not decode was met: the model abstains *)
+Definition rd_is_undecodable (w : rd_w) : bool := match w with RdW_exc 7 => true | _ => false end.
 
 Definition rd_view (file0 : list N) : rd_result :=
   (* header; OffsetInputSource *)
@@ -906,8 +947,9 @@ Definition rd_view (file0 : list N) : rd_result :=
                                               (match rdo_stream v with Some _ => Some (rd_stream_raw file v) | None => None end)
                                               (rdo_unmod v) :: fst acc, snd acc ++ w))
                                         tbl ([], []) in
+                          if existsb rd_is_undecodable (wall ++ snd items_w) then RdOutside 15 [] else
                           RdDoc (mkRdDoc version shift (MoDict tr) tbl (rev' (fst items_w)) (wall ++ snd items_w))
-                      | _, _ => RdFatal 1 wall
+                      | _, _ => if existsb rd_is_undecodable wall then RdOutside 15 [] else RdFatal 1 wall
                       end
                   | _, _ => RdOutside 20 (w0 ++ rdx_w x ++ wsize ++ wr)
                   end
